@@ -29,6 +29,8 @@ type divProg struct {
 	Decls string // top-level declarations
 	Body  string // statements of main (after the filler)
 	Tx    bool   // run as a transaction signed by 0x1 (commit path: encode / health check)
+	// Contract, if set, is deployed as N at 0x1 first (transactions cannot declare composites)
+	Contract string
 	Rec   bool   // recursion program: the call-depth clause applies
 }
 
@@ -39,6 +41,10 @@ const nodeDecl = `access(all) struct Node { access(all) let next: [Node]; init(_
 
 func divergence() []divProg {
 	return []divProg{
+		// two terminating controls (normal completion under the larger limits)
+		{Name: "terminating-loop", Body: `var i = 0; while i < 5 { i = i + 1 }; out = i`},
+		{Name: "terminating-recursion", Rec: true, Decls: `access(all) fun fib(_ n: Int): Int { if n < 2 { return n }; return fib(n - 1) + fib(n - 2) }
+`, Body: `out = fib(7)`},
 		{Name: "while-true", Body: `while true {}`},
 		{Name: "while-true-continue", Body: `while true { continue }`},
 		{Name: "while-true-if-continue", Body: `var i = 0; while true { if i == 0 { continue }; i = i + 1 }`},
@@ -79,8 +85,9 @@ access(all) fun f(_ n: Int): Int { pre { p(n): "p" } return n }
 		{Name: "nested-struct-equal-free", Decls: nodeDecl, Body: `var n = Node([]); var i = 0; while true { n = Node([n]); i = i + 1; if i % 500 == 0 { let c = n; let l = c.next.length } }`},
 		{Name: "nested-dict-save", Tx: true, Body: `var d: {String: AnyStruct} = {}; var i = 0; while i < 100000 { d = {"k": d}; i = i + 1 }; signer.storage.save(d, to: /storage/deep)`},
 		{Name: "nested-array-save-load", Tx: true, Body: `var a: [AnyStruct] = []; var i = 0; while i < 3000 { a = [a]; i = i + 1 }; signer.storage.save(a, to: /storage/deep); let b = signer.storage.load<[AnyStruct]>(from: /storage/deep)!; while true { a = [a, b] }`},
-		{Name: "nested-resource-destroy", Decls: lrDecl, Body: `var r <- create LR(); var i = 0; while i < 100000 { let p <- create LR(); p.add(<- r); r <- p; i = i + 1 }; destroy r`},
-		{Name: "nested-resource-save", Tx: true, Decls: lrDecl, Body: `var r <- create LR(); var i = 0; while i < 100000 { let p <- create LR(); p.add(<- r); r <- p; i = i + 1 }; signer.storage.save(<- r, to: /storage/deepr)`},
+		{Name: "nested-resource-destroy", Decls: lrDecl, Body: `var r <- create LR(); var i = 0; while i < 100000 { var p <- create LR(); r <-> p; r.add(<- p); i = i + 1 }; destroy r`},
+		{Name: "nested-resource-save", Tx: true, Contract: "access(all) contract N { " + strings.TrimSpace(lrDecl) + " access(all) fun mk(): @LR { return <- create LR() } }",
+			Decls: "import N from 0x1\n", Body: `var r <- N.mk(); var i = 0; while i < 100000 { var p <- N.mk(); r <-> p; r.add(<- p); i = i + 1 }; signer.storage.save(<- r, to: /storage/deepr)`},
 		{Name: "optional-nesting", Body: `var o: AnyStruct? = 1; var i = 0; while true { let w: AnyStruct? = o; o = [w]; i = i + 1; if i % 1000 == 0 { let s = o == nil } }`},
 	}
 }
@@ -137,16 +144,33 @@ func source30(c c30Case) (src string, tx bool) {
 	return p.Decls + "access(all) fun main(): AnyStruct {\n  var out: AnyStruct = 0\n  " + filler + "\n  " + p.Body + "\n  return out\n}", false
 }
 
+func contractOf30(prog string) string {
+	for _, d := range divergence() {
+		if d.Name == prog {
+			return d.Contract
+		}
+	}
+	return ""
+}
+
 func run30(c c30Case) c30Result {
 	src, tx := source30(c)
 	t := rt.Tx{Source: src, Script: !tx, UseVM: c.VM, CompLimit: c.Comp, MemLimit: c.Mem, StackDepthLimit: c.Depth}
 	if tx {
 		t.Signers = s1()
 	}
+	l := rt.NewLedger()
+	if contract := contractOf30(c.Prog); contract != "" {
+		rt.Deploy(l, rt.Addr(1), "N", contract, false)
+	}
 	cpu0 := cpuNow()
-	res := rt.Run(rt.NewLedger(), t)
+	res := rt.Run(l, t)
 	r := c30Result{Class: res.Class, Kind: res.Kind, LimitHit: res.LimitHit, Comp: res.CompUsed, Mem: res.MemUsed, CPUms: (cpuNow() - cpu0).Milliseconds()}
 	es := res.ErrString()
+	full := ""
+	if res.Err != nil {
+		full = res.Err.Error()
+	}
 	switch {
 	case res.Class == "ok":
 		r.Cat = "ok"
@@ -154,9 +178,9 @@ func run30(c c30Case) c30Result {
 		r.Cat = "bad"
 	case strings.Contains(res.Kind, "CallStackLimitExceededError"):
 		r.Cat = "depth"
-	case strings.Contains(es, "computation limit exceeded (harness gauge)"):
+	case strings.Contains(full, "computation limit exceeded (harness gauge)"):
 		r.Cat = "computation"
-	case strings.Contains(es, "memory limit exceeded (harness gauge)"):
+	case strings.Contains(full, "memory limit exceeded (harness gauge)"):
 		r.Cat = "memory"
 	default:
 		r.Cat = "other-user"
@@ -344,12 +368,23 @@ func runC30(env *mc.Env) {
 		c30Worker(env)
 		return
 	}
-	horizonMs := int64(mc.Pick(env, 20000, 60000))
+	// Horizons (CPU time of the worker, per case). Expected CPU time of a case: a few ms to ~1 s; the one
+	// exception is a recursion stopped at the DEFAULT depth limit (2000) by the interpreter, which needs
+	// 10-30 s to unwind (see notes) - those cases get the long horizon from the start.
+	// A case that exceeds the first-pass horizon is re-run alone with the confirmation horizon (5 more times
+	// if it hits that too) before it is believed.
+	firstMs := int64(mc.Pick(env, 30000, 60000))
+	confirmMs := int64(mc.Pick(env, 120000, 600000))
+	slowMs := int64(mc.Pick(env, 600000, 1800000))
+	horizonMs := firstMs
+	env.R.Set("horizon_confirm_cpu_ms", confirmMs)
 	env.R.Set("horizon_cpu_ms", horizonMs)
 	progs := divergence()
-	comps := []uint64{10, 1000, 100000}
+	comps := mc.Pick(env, []uint64{10, 1000, 20000}, []uint64{10, 1000, 100000})
 	mems := []uint64{10_000, 10_000_000}
-	depths := []uint64{0, 50}
+	// quick: the default depth (2000) only in the largest configuration of each recursion program (the
+	// interpreter needs ~10 s of CPU to unwind 2000 frames); 400 elsewhere
+	depths := mc.Pick(env, []uint64{400, 50, 0}, []uint64{0, 50})
 	fillers := fillers30
 	if !env.Thorough() {
 		fillers = fillers30[:2]
@@ -360,8 +395,11 @@ func runC30(env *mc.Env) {
 			for _, comp := range comps {
 				for _, mem := range mems {
 					for _, d := range depths {
-						if d != 0 && !p.Rec && f.Name != "none" {
+						if d == 50 && !p.Rec && f.Name != "none" {
 							continue // the depth limit only matters for the recursion programs; keep one filler for the others
+						}
+						if !env.Thorough() && d == 0 && !(p.Rec && f.Name == "none" && comp == comps[len(comps)-1] && mem == mems[len(mems)-1]) {
+							continue
 						}
 						for _, vm := range []bool{false, true} {
 							cases = append(cases, c30Case{p.Name, f.Name, comp, mem, d, vm})
@@ -372,30 +410,43 @@ func runC30(env *mc.Env) {
 		}
 	}
 	env.R.Set("cases", len(cases))
-	// batches: consecutive cases (both engines of one configuration stay together)
+	isRec := map[string]bool{}
+	for _, p := range progs {
+		isRec[p.Name] = p.Rec
+	}
+	slow := func(c c30Case) bool { return isRec[c.Prog] && c.Depth == 0 && !c.VM }
+	// batches of consecutive cases; the slow cases form batches of their own with the long horizon
 	const batchSize = 48
 	var batches [][]c30Case
-	for i := 0; i < len(cases); i += batchSize {
-		j := i + batchSize
-		if j > len(cases) {
-			j = len(cases)
+	var batchHorizon []int64
+	var fast, slowCases []c30Case
+	for _, c := range cases {
+		if slow(c) {
+			slowCases = append(slowCases, c)
+		} else {
+			fast = append(fast, c)
 		}
-		batches = append(batches, cases[i:j])
+	}
+	for i := 0; i < len(slowCases); i += 3 {
+		batches = append(batches, slowCases[i:min(i+3, len(slowCases))])
+		batchHorizon = append(batchHorizon, slowMs)
+	}
+	for i := 0; i < len(fast); i += batchSize {
+		batches = append(batches, fast[i:min(i+batchSize, len(fast))])
+		batchHorizon = append(batchHorizon, firstMs)
 	}
 	results := make([][]c30Outcome, len(batches))
 	mc.ParallelFor(env, len(batches), func(bi int) {
-		o, err := runBatch30(env, batches[bi], horizonMs)
+		o, err := runBatch30(env, batches[bi], batchHorizon[bi])
 		if err != nil {
 			env.R.HarnessError("%v", err)
 		}
 		results[bi] = o
 	})
-	isRec := map[string]bool{}
-	for _, p := range progs {
-		isRec[p.Name] = p.Rec
-	}
 	var maxCPU int64
+	horizonSeen := map[string]bool{}
 	byKey := map[string]c30Result{}
+	_ = horizonMs
 	for bi, b := range batches {
 		if results[bi] == nil {
 			continue
@@ -407,18 +458,52 @@ func runC30(env *mc.Env) {
 				env.R.Eval()
 				env.R.Violation(sig30(c, o.Crash), c, c.String()+": worker died: "+o.Detail)
 			case o.Horizon:
-				// believed only if it repeats 5 times in isolation
-				hits := 0
-				for k := 0; k < 5; k++ {
-					oo, err := runBatch30(env, []c30Case{c}, horizonMs)
-					if err == nil && len(oo) == 1 && oo[0].Horizon {
-						hits++
+				env.R.Eval()
+				sg := sig30(c, "horizon")
+				if horizonSeen[sg] {
+					// same engine and program as a horizon hit that was already examined: one more case of it
+					env.R.Add("horizon_hits_same_signature_not_rerun", 1)
+					continue
+				}
+				horizonSeen[sg] = true
+				// believed only if it also exceeds the confirmation horizon, 1 + 5 times, alone in a worker
+				long := confirmMs
+				if slow(c) {
+					long = slowMs
+				}
+				hits := make([]bool, 6)
+				var term c30Outcome
+				var tmu sync.Mutex
+				mc.ParallelFor(env, 6, func(k int) {
+					oo, err := runBatch30(env, []c30Case{c}, long)
+					if err == nil && len(oo) == 1 {
+						hits[k] = oo[0].Horizon
+						if oo[0].Done || oo[0].Crash != "" {
+							tmu.Lock()
+							term = oo[0]
+							tmu.Unlock()
+						}
+					}
+				})
+				n := 0
+				for _, h := range hits {
+					if h {
+						n++
 					}
 				}
-				env.R.Eval()
-				if hits == 5 {
-					env.R.Violation(sig30(c, "horizon"), c, fmt.Sprintf("%s: no termination within %d ms of CPU time (6 of 6 runs)", c, horizonMs))
-				} else {
+				switch {
+				case n == 6:
+					env.R.Violation(sg, c, fmt.Sprintf("%s: no termination within %d ms of CPU time (6 of 6 isolated runs, after exceeding %d ms in the batch)", c, long, batchHorizon[bi]))
+				case term.Crash != "":
+					env.R.Violation(sig30(c, term.Crash), c, c.String()+": worker died: "+term.Detail)
+				case term.Done:
+					env.R.Add("slow_cases_terminating_within_confirmation_horizon", 1)
+					if bad := judge30(term.Res); bad != "" {
+						env.R.Violation(sig30(c, bad), c, fmt.Sprintf("%s: class=%s kind=%s limitHit=%v: %s", c, term.Res.Class, term.Res.Kind, term.Res.LimitHit, term.Res.Err))
+					} else {
+						byKey[c.String()] = term.Res
+					}
+				default:
 					env.R.Add("horizon_hits_not_confirmed", 1)
 				}
 			case o.Done:
@@ -457,10 +542,25 @@ func runC30(env *mc.Env) {
 		if !okA || !okB {
 			continue
 		}
+		// farFromOtherLimits: the depth error came while less than a quarter of both gauges was used, so the
+		// other engine (whose metering differs by a few per cent) cannot have met a gauge limit first
+		far := func(r c30Result) bool { return r.Cat == "depth" && r.Comp*4 < c.Comp && r.Mem*4 < c.Mem }
 		switch {
 		case a.Cat == b.Cat:
-		case (a.Cat == "depth" && b.Cat == "ok") || (a.Cat == "ok" && b.Cat == "depth"):
-			env.R.Violation("both|"+c.Prog+"|depth-limit-one-engine-only", c, fmt.Sprintf("%s: interpreter %s, VM %s", c, a.Cat, b.Cat))
+		case (a.Cat == "depth" && b.Cat == "ok") || (a.Cat == "ok" && b.Cat == "depth") || (far(a) && b.Cat != "depth") || (far(b) && a.Cat != "depth"):
+			// the failing mechanism is the depth limit itself, not the program: one signature per
+			// (configured/default limit, outcome pair), the programs are cases of it
+			lim := "configured"
+			if c.Depth == 0 {
+				lim = "default"
+			}
+			norm := func(cat string) string {
+				if cat == "computation" || cat == "memory" {
+					return "other-limit" // which gauge stops the runaway engine depends on the program only
+				}
+				return cat
+			}
+			env.R.Violation(fmt.Sprintf("call-depth-limit(%s)|interp:%s,vm:%s", lim, norm(a.Cat), norm(b.Cat)), c, fmt.Sprintf("%s: interpreter %s (comp %d, mem %d), VM %s (comp %d, mem %d)", c, a.Cat, a.Comp, a.Mem, b.Cat, b.Comp, b.Mem))
 		default:
 			// the engines meter differently, so one may reach a computation/memory limit before the
 			// depth limit and the other not: "fails the same way" does not settle this -> don't care
@@ -469,7 +569,7 @@ func runC30(env *mc.Env) {
 	}
 	env.R.Set("max_case_cpu_ms", maxCPU)
 	env.R.Set("limit", "non-termination is judged against a CPU-time horizon, not proved")
-	env.R.BoundCompleted(fmt.Sprintf("%d divergence programs x %d fillers x comp{10,1e3,1e5} x mem{1e4,1e7} x depth{default,50} x 2 engines", len(progs), len(fillers)))
+	env.R.BoundCompleted(fmt.Sprintf("%d divergence programs x %d fillers x comp%v x mem%v x depth%v (0 = default 2000) x 2 engines", len(progs), len(fillers), comps, mems, depths))
 }
 
 func replayC30(env *mc.Env, raw json.RawMessage) (bool, string) {
@@ -477,7 +577,10 @@ func replayC30(env *mc.Env, raw json.RawMessage) (bool, string) {
 	if err := json.Unmarshal(raw, &c); err != nil {
 		return false, err.Error()
 	}
-	horizonMs := int64(20000)
+	horizonMs := int64(120000)
+	if c.Depth == 0 && !c.VM {
+		horizonMs = 600000
+	}
 	run := func(c c30Case) c30Outcome {
 		o, err := runBatch30(env, []c30Case{c}, horizonMs)
 		if err != nil || len(o) != 1 {
@@ -497,7 +600,9 @@ func replayC30(env *mc.Env, raw json.RawMessage) (bool, string) {
 		}
 		cv := c
 		cv.VM = !c.VM
-		if o2 := run(cv); o2.Done && ((o.Res.Cat == "depth" && o2.Res.Cat == "ok") || (o.Res.Cat == "ok" && o2.Res.Cat == "depth")) {
+		far := func(r c30Result) bool { return r.Cat == "depth" && r.Comp*4 < c.Comp && r.Mem*4 < c.Mem }
+		if o2 := run(cv); o2.Done && o.Res.Cat != o2.Res.Cat && ((o.Res.Cat == "depth" && o2.Res.Cat == "ok") || (o.Res.Cat == "ok" && o2.Res.Cat == "depth") ||
+			(far(o.Res) && o2.Res.Cat != "depth") || (far(o2.Res) && o.Res.Cat != "depth")) {
 			return true, fmt.Sprintf("%s: %s here, %s on the other engine", c, o.Res.Cat, o2.Res.Cat)
 		}
 		return false, fmt.Sprintf("%s: %s (%s)", c, o.Res.Cat, o.Res.Class)
